@@ -87,6 +87,12 @@ def run_session(report, drv, backend, rng, keys, tag):
             newer = relay.signed_event(sk, kind=kind, content="newer", tags=tags, created_at=T0 + 500)
             older = relay.signed_event(sk, kind=kind, content="older, arriving late", tags=tags, created_at=T0 + 400)
             subs += [("valid", newer), ("valid", older), ("resubmission", copy.deepcopy(newer))]
+        if rng.random() < 0.5:
+            # a deletion arrives before the event it references; later the deletion is resubmitted
+            sk = rng.choice(keys)
+            note = relay.signed_event(sk, kind=1, content="arrives after its deletion", created_at=T0 + 600)
+            dele = relay.signed_event(sk, kind=5, content="", tags=[["e", note["id"]]], created_at=T0 + 700)
+            subs += [("valid", dele), ("valid", note), ("resubmission", copy.deepcopy(dele))]
         lines = [{"op": "kv.reset"}] if backend == "kv" else [{"op": "sql.reset"}]
         expect = ["ok"]
         by_id = {}
